@@ -9,7 +9,7 @@ Import ListNotations.
 Open Scope Z_scope.
 
 (* tie to the sources (translator harness/gen_c18): middleware receive / ack / timeout call order, the keeper hook, which
-   relation key each path deletes, ibc-go's RecvPacket cache rule — as transcribed in M_Ibc.v *)
+   relation key each path deletes (the IBC one, also on success), ibc-go's RecvPacket cache rule — as transcribed in M_Ibc.v *)
 Theorem C19_source_shape : source_shapes_ok = true.
 Proof. exact source_shapes. Qed.
 Print Assumptions C19_source_shape.
@@ -57,30 +57,33 @@ Theorem C19_refund_once :
 Proof. exact refund_once_fresh. Qed.
 Print Assumptions C19_refund_once.
 
-(* a processed failure acknowledgement / timeout leaves no tracking record (a delivery that fails changes nothing) *)
-Theorem C19_record_removed_on_failure_and_timeout :
+(* the tracking record is removed on success, failure and timeout alike: after a delivery by the core the record of
+   (channel, sequence) is gone — unless the delivery itself failed, which changes nothing and can be retried *)
+Theorem C19_record_removed_on_success_failure_timeout :
   forall c q s,
+  let s0 := core_deliver (fun pk => on_ack pk true) c q s in
   let s1 := core_deliver (fun pk => on_ack pk false) c q s in
   let s2 := core_deliver on_timeout c q s in
-  (s1 = s \/ in_rel (rel s1) c q = false) /\ (s2 = s \/ in_rel (rel s2) c q = false).
-Proof. exact failure_or_timeout_removes. Qed.
-Print Assumptions C19_record_removed_on_failure_and_timeout.
+  (s0 = s \/ in_rel (rel s0) c q = false) /\ (s1 = s \/ in_rel (rel s1) c q = false) /\ (s2 = s \/ in_rel (rel s2) c q = false).
+Proof. exact delivery_removes_record. Qed.
+Print Assumptions C19_record_removed_on_success_failure_timeout.
 
-(* "removed on success" is FALSE of the code as it is … *)
-Theorem C19_record_kept_on_success_refuted :
-  exists isender s0 ops c q,
-    rel s0 = [] /\ ilog s0 = [] /\
-    count (is_sendevm c q) (ilog (run isender ops s0)) = 1%nat /\
-    find_pk (commits (run isender ops s0)) c q = None /\
-    in_rel (rel (run isender ops s0)) c q = true.
-Proof. exact record_kept_on_success_refuted. Qed.
-Print Assumptions C19_record_kept_on_success_refuted.
+(* a success acknowledgement for a packet in flight never fails: record and commitment are gone, no balance moves *)
+Theorem C19_success_ack_processed :
+  forall c q s pk,
+  find_pk (commits s) c q = Some pk ->
+  let s0 := core_deliver (fun pk => on_ack pk true) c q s in
+  in_rel (rel s0) c q = false /\ find_pk (commits s0) c q = None /\ ibal s0 = ibal s /\ ilog s0 = ilog s.
+Proof. exact success_ack_processed. Qed.
+Print Assumptions C19_success_ack_processed.
 
-(* … what holds instead: a success acknowledgement leaves the relation set exactly as it was *)
-Theorem C19_success_ack_leaves_relation_untouched :
-  forall c q s, rel (core_deliver (fun pk => on_ack pk true) c q s) = rel s.
-Proof. exact success_keeps_relation. Qed.
-Print Assumptions C19_success_ack_leaves_relation_untouched.
+(* regression, labelled: the success path as it was BEFORE the fix "AfterIBCAckSuccess deletes the IBC transfer
+   relation" (finding C19-1, snapshot 6774338) kept the record *)
+Theorem C19_prefix_variant_kept_record_on_success :
+  exists pk s s', in_rel (rel s) (p_chan pk) (p_seq pk) = true /\ on_ack_prefix pk true s = Ok s' /\
+                  in_rel (rel s') (p_chan pk) (p_seq pk) = true.
+Proof. exact prefix_record_kept_on_success. Qed.
+Print Assumptions C19_prefix_variant_kept_record_on_success.
 
 (* memo calls: under the stated disjointness (derived senders are not local accounts) no call ever runs as a local
    account, over all operation lists … *)
@@ -108,6 +111,8 @@ Proof. exact hook_call_sender. Qed.
 Print Assumptions C19_memo_call_sender_is_derived.
 
 Theorem C19_nonvacuous :
+  (let s := run ex_isender [SendFromEvm 0 0 (DAlias 0) 30; Ack 0 1 true; AckRaw 0 1 false] ex_state in
+   ibal s (0, AErc, 0) = 470 /\ rel s = [] /\ commits s = [] /\ count (is_reconv 0 1) (ilog s) = 0%nat /\ ibal s (0, ACoin, 0) = 30) /\
   (let s := run ex_isender [SendFromEvm 0 0 (DAlias 0) 30; Timeout 0 1; TimeoutRaw 0 1; AckRaw 0 1 false] ex_state in
    ibal s (0, AErc, 0) = 500 /\ rel s = [] /\ count (is_reconv 0 1) (ilog s) = 1%nat /\ ibal s (0, ACoin, 0) = 60) /\
   (let p := {| ip_src := 7; ip_dst := 0; ip_sender := 0; ip_denom := DOwn 10; ip_amt := 25; ip_addr_ok := true; ip_hex := true; ip_recv := 2; ip_memo := MemoCall false |} in
